@@ -78,6 +78,9 @@ FlatOf(m) == LET ks == SortedSeq(DOMAIN m) IN
              [q \in 1..(2 * Len(ks)) |-> IF q % 2 = 1 THEN ks[(q + 1) \div 2] ELSE m[ks[q \div 2]]]
 MapOfFlat(f) == [k \in {f[2 * q - 1] : q \in 1..(Len(f) \div 2)} |->
                     f[2 * (CHOOSE q \in 1..(Len(f) \div 2) : f[2 * q - 1] = k)]]
+\* the package-level values data.EmptyIntSet / data.EmptyIntMap: shared by every user of the package, values like any other
+DoEmptyIntSet == Push(SetV({}), [op |-> "EmptyIntSet", args |-> <<>>, a |-> 0, b |-> 0])
+DoEmptyIntMap == Push(MapV(EmptyMap), [op |-> "EmptyIntMap", args |-> <<>>, a |-> 0, b |-> 0])
 DoNewIntMap(m) == Push(NewIntMapOp(m), [op |-> "NewIntMap", args |-> FlatOf(m), a |-> 0, b |-> 0])
 DoInc(i, k) == i \in Idx /\ IsMap(i) /\ Push(IncOp(vals[i], k), [op |-> "Inc", args |-> <<k>>, a |-> i, b |-> 0])
 DoFilter(i, j) == i \in Idx /\ j \in Idx /\ IsMap(i) /\ IsSet(j)
@@ -96,6 +99,8 @@ ApplyOp(vs, h) ==
     [] h.op = "Insert" -> InsertOp(vs[h.a], h.args[1])
     [] h.op = "Union" -> UnionOp(vs[h.a], vs[h.b])
     [] h.op = "NewIntMap" -> NewIntMapOp(MapOfFlat(h.args))
+    [] h.op = "EmptyIntSet" -> SetV({})
+    [] h.op = "EmptyIntMap" -> MapV(EmptyMap)
     [] h.op = "Inc" -> IncOp(vs[h.a], h.args[1])
     [] h.op = "Filter" -> FilterOp(vs[h.a], vs[h.b])
 RECURSIVE ApplyAll(_, _)
@@ -103,7 +108,7 @@ ApplyAll(ops, vs) == IF ops = <<>> THEN vs ELSE ApplyAll(Tail(ops), Append(vs, A
 
 Init == vals = ApplyAll(Prefix, <<>>) /\ hist = Prefix
 Next == /\ Len(hist) < Len(Prefix) + MaxOps
-        /\ \/ (AllowNew /\ (NewIntSet \/ NewIntMap))
+        /\ \/ (AllowNew /\ (NewIntSet \/ NewIntMap \/ DoEmptyIntSet \/ DoEmptyIntMap))
            \/ Insert \/ Union \/ Inc \/ Filter
 Spec == Init /\ [][Next]_vars
 
